@@ -55,6 +55,7 @@ type Anchors struct {
 	DeleteNodes                                          *ssa.Function
 	// aws
 	AwsIncrease, AwsDelete, AwsSetSize, AwsOneShot, AwsAttach, AwsTerminateOrphans   *ssa.Function
+	GroupStep                                                                        *ssa.Function // the function that calls the scan body: RunOnce, or a per-group helper RunOnce calls once in its group loop
 	AwsFleetReq                                                                      *ssa.Function // the function holding the CreateFleet call: the fleet strategy itself, or a request helper under it
 	AwsBelongs, AwsNodes, AwsCreateFleetInput, AwsDecrease, AwsTargetSize            *ssa.Function
 	AwsMinSize, AwsMaxSize, AwsGetInstance, AwsProviderIDToInstanceID, AwsInstToProv *ssa.Function
@@ -656,6 +657,7 @@ func resolveAnchors(p *Prog) *Anchors {
 		for _, g := range p.callees[a.RunOnce] {
 			if g == f && len(callsTo(a.RunOnce, f)) > 0 {
 				calledByRunOnce = true
+				a.GroupStep = a.RunOnce
 			}
 		}
 		if calledByRunOnce {
@@ -669,6 +671,39 @@ func resolveAnchors(p *Prog) *Anchors {
 				a.errf("classifier is not unique")
 			}
 			a.Filter = f
+		}
+	}
+	if a.Scan == nil {
+		// the per-group body of RunOnce in a helper of the controller that looks the state up itself
+		// (no *NodeGroupState parameter), is called by RunOnce exactly once and by nobody else, and
+		// calls the scan body exactly once
+		for _, g := range p.callees[a.RunOnce] {
+			if g.Signature.Recv() == nil || !a.isPtrTo(g.Signature.Recv().Type(), a.TController) || len(callsTo(a.RunOnce, g)) != 1 || len(p.callers[g]) != 1 {
+				continue
+			}
+			takesState := false
+			for _, prm := range g.Params[1:] {
+				if a.isPtrTo(prm.Type(), a.TState) {
+					takesState = true
+				}
+			}
+			if takesState {
+				continue
+			}
+			for _, f := range p.callees[g] {
+				if f.Signature.Recv() == nil || !a.isPtrTo(f.Signature.Recv().Type(), a.TController) || len(callsTo(g, f)) != 1 || len(p.callers[f]) != 1 {
+					continue
+				}
+				hasState := false
+				for _, prm := range f.Params[1:] {
+					if a.isPtrTo(prm.Type(), a.TState) {
+						hasState = true
+					}
+				}
+				if hasState && a.Scan == nil {
+					a.Scan, a.GroupStep = f, g
+				}
+			}
 		}
 	}
 	if a.Scan == nil {
